@@ -176,6 +176,9 @@ func c08Session(t *rapid.T) {
 				t.Fatalf("fzf crashed (%s)\nhistory:\n  %s\n%s", step, strings.Join(history, "\n  "), pt)
 			}
 			first := "(none)"
+			if st == nil && s.Alive() {
+				first = "fzf is alive but does not answer; goroutines:\n" + s.GoroutineDump()
+			}
 			if st != nil {
 				k := 0
 				for k < len(st.Matches) && k < len(want) && st.Matches[k].Text == want[k] {
